@@ -361,6 +361,16 @@ def transportOK (h : Headers) : Bool := h.all (fun e => validName e.1 && e.2.all
 /-- what the upstream's server reads: names canonicalised again, values written and read trimmed -/
 def wire (h : Headers) : Headers := h.map (fun e => (canonicalKey e.1, e.2.map trimOWS))
 
+/-- `headerNewlineToSpace` of net/http's header writer -/
+def newlineToSpace (v : Str) : Str := v.map (fun c => if c == 10 || c == 13 then 32 else c)
+
+/-- the upgrade path writes the request itself (`Request.Write` in `DialForUpgrade`): no transport validates the
+    header fields, the writer turns CR / LF into spaces -/
+def writeUpgrade (h : Headers) : Headers := h.map (fun e => (e.1, e.2.map newlineToSpace))
+
+/-- the header fields as they arrive at the upstream on the plain / the upgrade path -/
+def sendOver (upgrade : Bool) (h : Headers) : Headers := wire (if upgrade then writeUpgrade h else h)
+
 /-! ## the whole path -/
 
 inductive Outcome where
@@ -374,6 +384,8 @@ inductive Outcome where
   | forbidden
   /-- 502: the transport refused to send a header the gateway generated; nothing reaches the upstream -/
   | transportRefused
+  /-- upgrade path: the upstream's own server refused the header fields with 400 and served nothing -/
+  | upstreamRefused
   /-- the upstream received a request with these headers; `ctxUser` is the context user the dispatcher saw -/
   | forwarded (received : Headers) (ctxUser : Identity)
 deriving DecidableEq, Repr
@@ -395,7 +407,10 @@ def serve (token : Str) (raw : List (Str × Str)) (auth : Option Identity) (az :
       | .pass h1 ctxUser =>
         let h2 := if upgrade then h1 else bearerAuth token h1
         let h3 := wrapRequest h2 ctxUser
-        if transportOK h3 then .forwarded (wire h3) ctxUser else .transportRefused
+        if upgrade then
+          if transportOK (writeUpgrade h3) then .forwarded (sendOver true h3) ctxUser else .upstreamRefused
+        else
+          if transportOK h3 then .forwarded (sendOver false h3) ctxUser else .transportRefused
 
 /-! ## the upstream's decoder -/
 
